@@ -2648,30 +2648,38 @@ func (s *swamp) DeleteTreasure(key string, shadowDelete bool) error {
 // Use this function carefully as it deletes the Treasures from the Swamp.
 func (s *swamp) CloneAndDeleteExpiredTreasures(howMany int32) ([]treasure.Treasure, error) {
 
-	s.claimMu.Lock()
-	defer s.claimMu.Unlock()
+	// The claim lock is held for the selection and removal only. It must be
+	// released before the auto-destroy below: Destroy waits until every other
+	// request has ceased its vigil, and a concurrent claim that is queued on
+	// claimMu holds one - it could never cease it, and both would wait forever.
+	shiftedTreasures := func() []treasure.Treasure {
 
-	// set the last interaction time to the current time
-	atomic.StoreInt64(&s.lastInteractionTime, time.Now().UnixNano())
+		s.claimMu.Lock()
+		defer s.claimMu.Unlock()
 
-	// build the expirationTimeIndex if it is not built yet
-	s.buildBeacon(s.expirationTimeBeaconASC, s.expirationTimeBeaconDESC, BeaconTypeExpirationTime)
+		// set the last interaction time to the current time
+		atomic.StoreInt64(&s.lastInteractionTime, time.Now().UnixNano())
 
-	// shift the expired treasures from the swamp
-	shiftedTreasures := s.expirationTimeBeaconASC.ShiftExpired(int(howMany))
+		// build the expirationTimeIndex if it is not built yet
+		s.buildBeacon(s.expirationTimeBeaconASC, s.expirationTimeBeaconDESC, BeaconTypeExpirationTime)
 
-	// delete the shifted treasures from the other indexes
-	// A treasure that a concurrent Delete removed between the selection and this
-	// point is not ours to hand out: keep only what deleteHandler really removed.
-	removed := shiftedTreasures[:0]
-	for _, d := range shiftedTreasures {
-		// delete the treasure from the beaconKey
-		// A lejárt treasureok esetében mindig valódi törlést végzünk és nem csak "törölt" flaggel jelöljük meg a treasuret
-		if s.deleteHandler(d.GetKey(), false) != nil {
-			removed = append(removed, d)
+		// shift the expired treasures from the swamp
+		shifted := s.expirationTimeBeaconASC.ShiftExpired(int(howMany))
+
+		// delete the shifted treasures from the other indexes
+		// A treasure that a concurrent Delete removed between the selection and this
+		// point is not ours to hand out: keep only what deleteHandler really removed.
+		removed := shifted[:0]
+		for _, d := range shifted {
+			// delete the treasure from the beaconKey
+			// A lejárt treasureok esetében mindig valódi törlést végzünk és nem csak "törölt" flaggel jelöljük meg a treasuret
+			if s.deleteHandler(d.GetKey(), false) != nil {
+				removed = append(removed, d)
+			}
 		}
-	}
-	shiftedTreasures = removed
+		return removed
+
+	}()
 
 	// destroy the swamp if there is no treasure in it
 	remainingCount := s.beaconKey.Count()
@@ -2702,6 +2710,31 @@ func (s *swamp) CloneAndDeleteExpiredTreasures(howMany int32) ([]treasure.Treasu
 // same treasure as matching.
 func (s *swamp) CloneAndDeleteMatchingTreasures(beaconType BeaconType, order BeaconOrder, howMany int32, predicate func(treasure.Treasure) bool, capPredicate func(treasure.Treasure) bool, capMax int32) ([]treasure.Treasure, bool, error) {
 
+	if howMany <= 0 || predicate == nil {
+		atomic.StoreInt64(&s.lastInteractionTime, time.Now().UnixNano())
+		return nil, false, nil
+	}
+
+	shiftedTreasures, capReached, err := s.claimMatchingTreasures(beaconType, order, howMany, predicate, capPredicate, capMax)
+	if err != nil {
+		return nil, false, err
+	}
+
+	// Auto-destroy on empty, mirroring CloneAndDeleteExpiredTreasures - and, as
+	// there, only after the claim locks have been released: Destroy waits for
+	// the vigil of every other request, including one queued on those locks.
+	if s.beaconKey.Count() == 0 {
+		s.CeaseVigil()
+		s.Destroy()
+	}
+
+	return shiftedTreasures, capReached, nil
+}
+
+// claimMatchingTreasures is the selection and removal part of
+// CloneAndDeleteMatchingTreasures; it runs under the claim (and cap) locks.
+func (s *swamp) claimMatchingTreasures(beaconType BeaconType, order BeaconOrder, howMany int32, predicate func(treasure.Treasure) bool, capPredicate func(treasure.Treasure) bool, capMax int32) ([]treasure.Treasure, bool, error) {
+
 	// Cap-bearing flow: serialise against other Cap-bearing flows on this
 	// swamp — see swamp_patch_expired.go for the rationale. Shift-style
 	// flows remove records under beacon mu (no race window), but if Cap
@@ -2718,10 +2751,6 @@ func (s *swamp) CloneAndDeleteMatchingTreasures(beaconType BeaconType, order Bea
 	}
 
 	atomic.StoreInt64(&s.lastInteractionTime, time.Now().UnixNano())
-
-	if howMany <= 0 || predicate == nil {
-		return nil, false, nil
-	}
 
 	// Ensure the chosen beacon is built before scanning it.
 	switch beaconType {
@@ -2759,12 +2788,6 @@ func (s *swamp) CloneAndDeleteMatchingTreasures(beaconType BeaconType, order Bea
 		}
 	}
 	shiftedTreasures = removed
-
-	// Auto-destroy on empty, mirroring CloneAndDeleteExpiredTreasures.
-	if s.beaconKey.Count() == 0 {
-		s.CeaseVigil()
-		s.Destroy()
-	}
 
 	return shiftedTreasures, capReached, nil
 }
